@@ -16,6 +16,8 @@ def classify(rec):
     if h and len(c) >= len(h) and not str(rec.get("how", "")).startswith("history-dependent"):
         tail = c[len(c) - len(h):]
         if tail != h and [x.lower() for x in tail] == [x.lower() for x in h]:
+            if "(refused in the handshake)" in str(rec.get("concrete", "")):
+                return "strict-handshake-refuses-server-name-in-other-letter-case"
             return "server-name-differs-in-letter-case"
     if (str(rec.get("how", "")).startswith("history-dependent") and (rec.get("got") or {}).get("k") == "id"
             and want and all(o.get("k") in ("none", "err") for o in want)):
